@@ -287,10 +287,55 @@ class C20(Prop):
                                                   {"name": "fin", "kind": "fn", "params": [["rep", None], ["doc", None]], "dataOuts": ["done"], "body": {"b": "tag", "t": "fin"}}], "bound": []})
         return prog
 
+    @staticmethod
+    def _hidden_inner_producer(rng: random.Random) -> list[dict]:
+        """A HIDDEN node inside a container (one or two levels down) produces a value taken outside, next to visible siblings; sometimes the
+        hidden node is also the only taker of a graph input."""
+        inner = {"name": "C0", "nodes": [{"name": "use", "kind": "fn", "params": [[rng.choice(["v", "q"]), None]], "dataOuts": ["o"], "body": {"b": "tag", "t": "use"}, "hide": True},
+                                         {"name": "other", "kind": "fn", "params": [["v", None]], "dataOuts": ["o2"], "body": {"b": "tag", "t": "other"}}], "bound": []}
+        prog = [inner]
+        top: list[dict] = [{"name": "C0", "kind": "graph", "inner": 0}]
+        if rng.random() < 0.4:
+            prog.append({"name": "C1", "nodes": [{"name": "C0", "kind": "graph", "inner": 0},
+                                                 {"name": "mid", "kind": "fn", "params": [["o2", None]], "dataOuts": ["m"], "body": {"b": "tag", "t": "mid"}}], "bound": []})
+            top = [{"name": "C1", "kind": "graph", "inner": 1}]
+        top.append({"name": "fin", "kind": "fn", "params": [["o", None]] + ([["o2", None]] if rng.random() < 0.5 else []), "dataOuts": ["done"], "body": {"b": "tag", "t": "fin"}})
+        rng.shuffle(top)
+        prog.append({"name": "root", "nodes": top, "bound": []})
+        return prog
+
+    @staticmethod
+    def _renamed_lookalike_outputs(rng: random.Random) -> list[dict]:
+        """A container exposing an inner output under ANOTHER name that contains (or is contained in) the name of a sibling output, one or
+        two levels deep: the edge must start at the producer of the renamed value, not at the look-alike."""
+        inner = {"name": "A", "nodes": [{"name": "p", "kind": "fn", "params": [["x", None]], "dataOuts": ["v"], "body": {"b": "tag", "t": "p"}},
+                                        {"name": "q", "kind": "fn", "params": [["x", None]] + ([["v", None]] if rng.random() < 0.4 else []), "dataOuts": ["val"],
+                                         "body": {"b": "tag", "t": "q"}}], "bound": []}
+        ext = rng.choice(["value", "va", "v_all", "values"])
+        prog = [inner]
+        node_a = {"name": "A", "kind": "graph", "inner": 0, "outRen": [["val", ext]]}
+        top: list[dict]
+        if rng.random() < 0.4:
+            ext2 = rng.choice([ext, ext + "_x", "vx"])
+            prog.append({"name": "B", "nodes": [node_a, {"name": "m", "kind": "fn", "params": [[ext, None]], "dataOuts": ["mm"], "body": {"b": "tag", "t": "m"}}], "bound": []})
+            top = [{"name": "B", "kind": "graph", "inner": 1, "outRen": ([[ext, ext2]] if ext2 != ext else [])}]
+            ext = ext2
+        else:
+            top = [node_a]
+        top.append({"name": "use", "kind": "fn", "params": [["v", None], [ext, None]], "dataOuts": ["z"], "body": {"b": "tag", "t": "use"}})
+        rng.shuffle(top)
+        prog.append({"name": "root", "nodes": top, "bound": []})
+        return prog
+
     def cases(self, rng: random.Random, tier: str) -> Iterable[dict]:
+        for _ in range(4):
+            yield {"program": self._hidden_inner_producer(rng)}
+        for _ in range(6):
+            yield {"program": self._renamed_lookalike_outputs(rng)}
         forced = [True] * 6
         forced_in = [True] * 6
         forced_gated = 12
+        forced_hide = 10
         while True:
             if forced_in or rng.random() < 0.05:
                 if forced_in:
@@ -308,7 +353,7 @@ class C20(Prop):
                 forced_gated -= 1
                 r = 0.8
             if r < 0.55:
-                c = gen.gen_dag_program(rng, max_nodes=6, depth=rng.choice([1, 1, 2, 2, 3, 3, 0]), allow_fed_default=False, rename_graph_outputs=False)
+                c = gen.gen_dag_program(rng, max_nodes=6, depth=rng.choice([1, 1, 2, 2, 3, 3, 0]), allow_fed_default=False)
                 program = c["program"]
             elif r < 0.75:
                 program = gen.gen_gated_dag(rng, allow_mutex=False)["program"]
@@ -343,6 +388,28 @@ class C20(Prop):
                 program = prog
             if rng.random() < 0.6:
                 program = prefixify(rng, program)
+            if forced_hide or rng.random() < 0.2:
+                # hide=True on one or two function nodes (a sole taker of a graph input among them, when there is one): a hidden node is
+                # no node of any state, and no edge may end or start there
+                forced_hide = max(0, forced_hide - 1)
+                program = copy.deepcopy(program)
+                gsel = rng.choice(program)
+                fns = [n for n in gsel["nodes"] if n["kind"] == "fn"]
+                produced = {o for n in gsel["nodes"] for o in n.get("dataOuts", [])}
+                takers: dict[str, list] = {}
+                for n in gsel["nodes"]:
+                    for q in n.get("params", []):
+                        if q[0] not in produced:
+                            takers.setdefault(q[0], []).append(n)
+                sole = [ns[0] for ns in takers.values() if len(ns) == 1 and ns[0]["kind"] == "fn"]
+                # (not a node whose output some wrapper exposes under ANOTHER name: the checker resolves a container's output to its inner
+                #  producer by name and would take the container itself for the producer of the renamed value — not hidden, hence "must be drawn")
+                renamed_away = {a for g_ in program for m in g_["nodes"] if m["kind"] == "graph" for a, _ in m.get("outRen", [])}
+                for n in ([rng.choice(sole)] if sole and rng.random() < 0.7 else []) + (rng.sample(fns, 1) if fns else []):
+                    if set(n.get("dataOuts", [])) & renamed_away:
+                        continue
+                    if sum(1 for m in gsel["nodes"] if not m.get("hide") and m is not n) >= 1:      # (a graph hidden altogether draws nothing)
+                        n["hide"] = True
             root = program[-1]
             outs = list(dict.fromkeys(o for n in root["nodes"] if n["kind"] == "fn" for o in n.get("dataOuts", [])))
             if outs and rng.random() < 0.25 and not any(n["kind"] in ("route", "ifelse") for n in root["nodes"]):
